@@ -34,7 +34,14 @@ class make_block_solver {
                 const backend_params &bprm = backend_params()
                 )
         {
-            S = std::make_shared<Solver>(adapter::block_matrix<value_type>(A), prm, bprm);
+            // The block adapter merges the scalar rows of a block row by scanning
+            // their entries in increasing column order: sort a copy of the user
+            // matrix first (as amg's constructor does for its input).
+            typedef typename backend_type::col_type col_type;
+            typedef typename backend_type::ptr_type ptr_type;
+            backend::crs<scalar_type, col_type, ptr_type> As(A);
+            backend::sort_rows(As);
+            S = std::make_shared<Solver>(adapter::block_matrix<value_type>(As), prm, bprm);
         }
 
         template <class Matrix, class Vec1, class Vec2>
